@@ -532,10 +532,6 @@ Proof.
   - apply Nat.eqb_eq in Al. rewrite !pad_len. destruct r1, r2; exact Al.
 Qed.
 
-(* the domain of the normal form, for a pair of versions *)
-Definition dom2 (a v : ver) : bool :=
-  negb (kf_long a v) && negb (kf_lead0 a) && negb (kf_lead0 v)
-  && negb (kf_multisuf a) && negb (kf_multisuf v) && negb (kf_sufzero (v_sufs a) (v_sufs v)).
 
 Lemma us_enc_sufs s R : exists r, enc_sufs s ++ R = usc :: r.
 Proof. destruct s as [|x s]; cbn; eexists; reflexivity. Qed.
@@ -547,10 +543,10 @@ Proof.
   unfold wf_ver. intros H. repeat (apply andb_true_iff in H as [H ?]). destruct (v_letter v); auto.
 Qed.
 
-Theorem version_order a v : wf_ver a = true -> wf_ver v = true -> dom2 a v = true ->
+Theorem version_order a v : wf_ver a = true -> wf_ver v = true -> in_domain a v = true ->
   lcmp (enc a) (enc v) = vercmp a v.
 Proof.
-  intros Wa Wv D. unfold dom2 in D. repeat (apply andb_true_iff in D as [D ?]).
+  intros Wa Wv D. unfold in_domain in D. repeat (apply andb_true_iff in D as [D ?]).
   repeat match goal with H : negb _ = true |- _ => apply negb_true_iff in H end.
   unfold kf_long in D. apply negb_false_iff in D. repeat (apply andb_true_iff in D as [D ?]).
   destruct (wf_ver_nums a Wa) as (x & xs & Ea & Fa). destruct (wf_ver_nums v Wv) as (y & ys & Ev & Fv).
